@@ -35,6 +35,16 @@ def rnd_acl(rnd, gen, menu=MENU, p=0.6):
             out.append(aclgen.mk(pat, rnd_acl(rnd, gen, kids, 0.75), False, rnd.choice([None, None, None, True, False]), gen))
     if rnd.random() < 0.08:
         out.append(aclgen.mk([{"t": "tilde"}], [], True, None, gen))
+    return twins(rnd, out, gen)
+
+
+def twins(rnd, rules, gen):
+    """an ACL text may list one rule on several lines (with different parameters and different children): annet unites them"""
+    out = list(rules)
+    for r in rules:
+        if rnd.random() < 0.2:
+            cds = [c for c in (None, True, False) if c != r["cd_explicit"]]
+            out.insert(rnd.randrange(len(out) + 1), aclgen.mk(r["pat"], [], False, rnd.choice(cds), gen))
     return out
 
 
@@ -54,6 +64,13 @@ def rnd_prog(rnd, n):
             depth += 1
         elif x < 0.8:
             prog.append({"op": "menter", "rows": [["blk", "1"], ["sub", "1"]]})
+            depth += 1
+        elif x < 0.86:
+            prog.append(rnd.choice([{"op": "enterdef", "row": ["blk", "0"], "kinds": ["w", "int"]},
+                                    {"op": "enterdef", "row": ["sub", "7"], "kinds": ["w", "int"]},
+                                    {"op": "enterdef", "row": ["interface", "0"], "kinds": ["w", "int"]},
+                                    {"op": "enterdef", "row": ["blk", ""], "kinds": ["w", "none"]},
+                                    {"op": "enterdef", "row": ["blk", ""], "kinds": ["w", "empty"]}]))
             depth += 1
         elif depth > 0:
             prog.append({"op": "leave"})
@@ -83,11 +100,11 @@ def prog_tree(prog):
         elif op == "ym":
             for r in o["rows"]:
                 ins(stack + [r])
-        elif op == "enter" or (op == "enterif" and o["cond"]):
+        elif op == "enter" or (op == "enterif" and o["cond"]) or (op == "enterdef" and not {"none", "empty"} & set(o["kinds"])):
             stack = stack + [o["row"]]
             ins(stack)
             frames.append(1)
-        elif op == "enterif":
+        elif op in ("enterif", "enterdef"):
             frames.append(0)
         elif op == "menter":
             for r in o["rows"]:
@@ -116,14 +133,14 @@ def covering_acl(rnd, tree, gen, drop=0.0):
             continue
         seen.add(key)
         out.append(aclgen.mk(pat, kids, False, rnd.choice([None, None, True, False]), gen))
-    return out
+    return twins(rnd, out, gen)
 
 
 def close(prog):
     """programs are well bracketed: close what is still open (the spec's Meaning ignores trailing leaves anyway)"""
     d = 0
     for o in prog:
-        if o["op"] in ("enter", "enterif", "menter"):
+        if o["op"] in ("enter", "enterif", "enterdef", "menter"):
             d += 1
         elif o["op"] == "leave":
             d -= 1
